@@ -4,7 +4,7 @@ definition := {"tzid": str, "obs": [observance...]}
 observance := {"kind": "STANDARD"|"DAYLIGHT", "from": seconds, "to": seconds, "name": str|None,
                "start": [y,m,d,H,M,S],                       # DTSTART (local, in the 'from' offset)
                "rdates": [[y,m,d,H,M,S], ...]?,
-               "rrule": {"bymonth": m, "byday": [n, wd], "until": [y,m,d,H,M,S] (UTC) | None, "count": int | None}?}
+               "rrule": {"bymonth": m, "byday": [n, wd], "until": [y,m,d,H,M,S] (UTC) | None, "count": int | None, "interval": int?}?}
 An onset is its local DTSTART/recurrence minus TZOFFSETFROM.
 """
 import calendar
@@ -34,10 +34,11 @@ def local_onsets(ob, horizon_year=HORIZON_YEAR):
         n, wd = rr["byday"]
         until = datetime(*rr["until"]) if rr.get("until") else None
         count = rr.get("count")
+        interval = rr.get("interval") or 1
         occ = []
         y = start.year
         while y <= horizon_year:
-            d = nth_weekday(y, rr["bymonth"], n, WD.index(wd))
+            d = nth_weekday(y, rr["bymonth"], n, WD.index(wd)) if (y - start.year) % interval == 0 else None
             if d is not None:
                 t = datetime(y, rr["bymonth"], d, start.hour, start.minute, start.second)
                 if t >= start:
@@ -103,6 +104,8 @@ def render(defn):
                 s += ";UNTIL=" + fmt_dt(rr["until"], True)
             if rr.get("count"):
                 s += f";COUNT={rr['count']}"
+            if rr.get("interval"):
+                s += f";INTERVAL={rr['interval']}"
             lines.append(s)
         lines.append(f"END:{ob['kind']}")
     lines.append("END:VTIMEZONE")
